@@ -160,7 +160,7 @@ func cloneMeta(m map[string]any) map[string]any {
 
 func (r *Runner) settleCascade(idx, id string) string {
 	g := gid(idx, id)
-	deadline := time.Now().Add(10 * time.Second)
+	deadline := time.Now().Add(2 * time.Minute) // long enough that a loaded machine cannot exceed it by slowness alone
 	for {
 		// every successful VDelete starts exactly one background cascade; it reports its end through the hook
 		if hookCascadeEnd.Load()-r.cascadeBase >= r.nDeletes {
@@ -172,7 +172,7 @@ func (r *Runner) settleCascade(idx, id string) string {
 			return fmt.Sprintf("delete cascade of %s finished but live edges remain: in=%v out=%v", g, in, out)
 		}
 		if time.Now().After(deadline) {
-			return fmt.Sprintf("delete cascade of %s did not finish within 10s with the engine idle", g)
+			return fmt.Sprintf("delete cascade of %s did not finish within 2 min with the engine idle", g)
 		}
 		time.Sleep(100 * time.Microsecond)
 	}
